@@ -289,6 +289,18 @@ func runC01(ctx *Ctx) {
 		return
 	}
 	t, rs, w, comma, tags := genIngestSpec(ctx.R, ctx.Thorough())
+	if ctx.Idx%12 == 11 && cliSafe(t) && len(t.PK) > 0 {
+		// commit from the branch's configured file, edited 100..900 ms after the cached temporary commit
+		edited := cloneSpec(t)
+		nr := make([]string, len(edited.Columns))
+		for c := range nr {
+			nr[c] = "zz-new"
+		}
+		edited.Rows = append(edited.Rows, nr)
+		in, res := c01CLIFile(t, edited, 100+ctx.R.Intn(800))
+		ctx.Emit("export", in, res, true, append(tags, "cli", "branch-file")...)
+		return
+	}
 	if ctx.Idx%6 == 5 && cliSafe(t) {
 		// the same table through `wrgl commit` + `wrgl export`
 		in, res := c01CLI(t)
